@@ -14,10 +14,10 @@ package main
 //	    | ( enum STR+ ) | ( lit J+ )
 //	    | ( opt S ) | ( nul S )
 //	    | ( obj MODE CATCH PART ( cks SZ* ) ( STR S )* )     MODE ::= strip|strict|loose  CATCH ::= - | S   PART ::= p | -
-//	    | ( objf MODE CATCH ( ops OP* ) ( cks SZ* ) ( STR S )* )   an object with a call history, top level (or under lazy) only
+//	    | ( objF MODE CATCH ( ops OP* ) ( cks SZ* ) ( STR S )* )   an object with a call history, top level (or under lazy) only
 //	                               OP ::= ( part STR* ) | ( req STR* )      Partial(keys…) / Required(keys…), in call order
-//	                               PART `p` / `objf` are written when the tree's converter ignores the object's own state (probed:
-//	                               legacyObj), `P` / `objF` when it asks the object (after the fix C07-object-optionality)
+//	    | ( mapF ( str CK* ) S SZ* )   gozod.Map(String()<CK*>, S)<SZ*>, top level only; written `mapf` when the tree's convertMap
+//	                               drops the key schema (probed: legacyMap; before the fix C07-map-key-schema)
 //	    | ( slice S SZ* )          SZ ::= ( min N ) | ( max N ) | ( len N )
 //	    | ( arr REST ( cks SZ* ) S* ) | ( tup REST ( cks SZ* ) S* )     REST ::= - | S
 //	    | ( rec S S SZ* )
@@ -68,8 +68,8 @@ type ObjOp struct {
 	Keys []string
 }
 
-// legacyObj: ToJSONSchema of the tree under test ignores the object's Partial / Required state (probed at start-up).
-var legacyObj bool
+// legacyMap: convertMap of the tree under test drops the key schema (probed at start-up).
+var legacyMap bool
 
 type J struct {
 	T  string // n b q s a o
@@ -156,11 +156,7 @@ func (s *Sch) String() string {
 	case "obj":
 		var b strings.Builder
 		if len(s.Ops) > 0 {
-			if legacyObj {
-				b.WriteString("( objf ")
-			} else {
-				b.WriteString("( objF ")
-			}
+			b.WriteString("( objF ")
 			b.WriteString(s.Mode + " " + orDash(s.Catch) + " ( ops")
 			for _, op := range s.Ops {
 				if op.Req {
@@ -182,9 +178,6 @@ func (s *Sch) String() string {
 		p := "-"
 		if s.Part {
 			p = "P"
-			if legacyObj {
-				p = "p"
-			}
 		}
 		b.WriteString("( obj " + s.Mode + " " + orDash(s.Catch) + " " + p + " ( cks" + cks(s.Cks) + " )")
 		for _, f := range s.Fields {
@@ -202,6 +195,11 @@ func (s *Sch) String() string {
 		return b.String() + " )"
 	case "rec":
 		return "( rec " + s.Key.String() + " " + s.Elem.String() + cks(s.Cks) + " )"
+	case "map":
+		if legacyMap {
+			return "( mapf " + s.Key.String() + " " + s.Elem.String() + cks(s.Cks) + " )"
+		}
+		return "( mapF " + s.Key.String() + " " + s.Elem.String() + cks(s.Cks) + " )"
 	case "union", "xor", "and":
 		var b strings.Builder
 		b.WriteString("( " + s.K)
